@@ -279,6 +279,9 @@ class Inliner:
 
     def _fn_value(self, tmp, op, depth=0):
         """('const', operand) / ('closure', body, place) for a fn-pointer operand whose value is known here"""
+        if op['k'] == 'const' and op.get('closure'):
+            g = self.prog.by_id.get(op['closure'])
+            return ('closure', g, None) if g is not None else None
         if op['k'] == 'const':
             return ('const', op) if op.get('fn') else None
         o = single_origin(trace_operand(tmp, op, through_calls=set()))
@@ -289,7 +292,11 @@ class Inliner:
         if o.kind == 'const' and isinstance(o.data, dict) and o.data.get('fn'):
             return ('const', o.data)
         if o.kind == 'param' and o.data == 1 and tmp.is_closure and len(o.proj) == 1 and o.proj[0][0] == 'f' and o.proj[0][1] in self.upvar_consts:
-            return ('const', self.upvar_consts[o.proj[0][1]])
+            uc = self.upvar_consts[o.proj[0][1]]
+            if uc.get('closure'):
+                g = self.prog.by_id.get(uc['closure'])
+                return ('closure', g, None) if g is not None else None
+            return ('const', uc)
         if o.kind == 'agg' and o.data[2].get('agg') == 'closure' and not o.data[2]['ops']:
             g = self.prog.by_id.get(o.data[2]['closure'])
             stmt = tmp.blocks[o.data[0]]['stmts'][o.data[1]]
@@ -316,7 +323,7 @@ class Inliner:
         direct = t['dest']['l'] if not t['dest']['p'] else None
         offL, offB, rets = self._copy_in(j, g, chain, origin_of_block, ret_to=direct)
         env_ty = g.locals[1]['ty'] if g.arg_count >= 1 else ''
-        if g.arg_count >= 1:
+        if g.arg_count >= 1 and clo_pl is not None:
             if env_ty.startswith('&'):
                 blk['stmts'].append(_assign(_pl(offL + 1, ty=env_ty), {'k': 'ref', 'mut': False, 'pl': clo_pl}, span))
             else:
@@ -354,7 +361,7 @@ class Inliner:
         direct = t['dest']['l'] if not t['dest']['p'] else None
         offL, offB, rets = self._copy_in(j, g, chain, origin_of_block, ret_to=direct)
         env_ty = g.locals[1]['ty'] if g.arg_count >= 1 else ''
-        if g.arg_count >= 1:
+        if g.arg_count >= 1 and clo_pl is not None:
             if env_ty.startswith('&'):
                 blk['stmts'].append(_assign(_pl(offL + 1, ty=env_ty), {'k': 'ref', 'mut': env_ty.startswith('&mut'), 'pl': clo_pl}, span))
             else:
@@ -440,7 +447,10 @@ class Inliner:
     NEXT_OF = [('std::vec::IntoIter<', "<std::vec::IntoIter<T, A> as std::iter::Iterator>::next", 'alloc'),
                ('std::slice::Iter<', "<std::slice::Iter<'a, T> as std::iter::Iterator>::next", 'core'),
                ('std::slice::IterMut<', "<std::slice::IterMut<'a, T> as std::iter::Iterator>::next", 'core'),
-               ('std::array::IntoIter<', "<std::array::IntoIter<T, N> as std::iter::Iterator>::next", 'core')]
+               ('std::array::IntoIter<', "<std::array::IntoIter<T, N> as std::iter::Iterator>::next", 'core'),
+               ('std::str::CharIndices<', "<std::str::CharIndices<'a> as std::iter::Iterator>::next", 'core'),
+               ('std::str::Chars<', "<std::str::Chars<'a> as std::iter::Iterator>::next", 'core')]
+    ITEM_OF = {'std::str::CharIndices<': '(usize, char)', 'std::str::Chars<': 'char'}
     CONSUMERS = {'std::iter::Iterator::collect': 'collect', 'std::iter::Iterator::try_fold': 'try_fold', 'std::iter::Iterator::try_for_each': 'try_for_each',
                  'std::iter::Iterator::fold': 'fold', 'std::iter::Iterator::for_each': 'for_each', 'std::iter::Iterator::any': 'any',
                  'std::iter::Iterator::all': 'all', 'std::iter::Iterator::find': 'find', 'std::iter::Iterator::last': 'last'}
@@ -463,8 +473,13 @@ class Inliner:
         if o is not None and o.kind == 'callres' and not o.proj and o.data.callee == 'std::iter::Iterator::map' and len(o.data.args) == 2:
             kmap = o.data.args[1]
             src_op, src_ty = o.data.args[0], (o.data.term['arg_tys'][0] if o.data.term['arg_tys'] else '')
+        so0 = single_origin(trace_operand(tmp, src_op, through_calls=set()))
+        if so0 is not None and so0.kind == 'callres' and not so0.proj and so0.data.callee == 'std::iter::Iterator::by_ref' and len(so0.data.args) == 1:
+            # `self.chars.by_ref().any(..)`: by_ref hands the same iterator on (as `&mut`), the adaptor draws from it in place
+            src_op, src_ty = so0.data.args[0], (so0.data.term['arg_tys'][0] if so0.data.term['arg_tys'] else src_ty)
         bare = src_ty[5:] if src_ty.startswith('&mut ') else src_ty
         nx = [(rd, cr) for pfx, rd, cr in self.NEXT_OF if bare.startswith(pfx)]
+        item_ty = ([v for k, v in self.ITEM_OF.items() if bare.startswith(k)] or [''])[0]
         if not nx:
             return False
         dest_ty = t['dest'].get('ty', '')
@@ -481,7 +496,7 @@ class Inliner:
             if g is None or not g.locals[0]['ty'].startswith('std::result::Result<'):
                 return False
         L = lambda ty='': self._new_local(j, ty)
-        IT, REF, NX, D, ITEM, X = L(src_ty), L('&mut ' + bare), L('std::option::Option<?>'), L('isize'), L(), L()
+        IT, REF, NX, D, ITEM, X = L(src_ty), L('&mut ' + bare), L('std::option::Option<%s>' % (item_ty or '?')), L('isize'), L(item_ty), L(item_ty if kmap is None else '')
         ACC, V, R, D2, BL = L(), L(dest_ty), L(), L('isize'), L('bool')
         tgt = {'k': 'goto', 'target': t['target']} if t['target'] is not None else {'k': 'unreachable'}
         dest = t['dest']
